@@ -20,7 +20,7 @@ RULE = ("Generated op programs (model-based testing, the whole program shrinks a
         "dict nor the metadata object; the file holds exactly networks + metadata (+ unitary_dict); load/autoload give torch.equal "
         "parameters, same sizes, same dictionary; metadata round-trips. Non-trivial = a second save with the same non-empty "
         "metadata object for a state with a unitary dictionary, or an autoload of a model with nh != nv and non-zero biases.")
-RULE_EXT = ('Extended as built: further ops drift_restore (train, load back, compare), load_reinit_save, load into self, save locations as str / pathlib.Path / open file object, bare dictionary files, tensor metadata of several dtypes.')
+RULE_EXT = ('Extended as built: further ops drift_restore (train, load back, compare), load_reinit_save, load into self, save locations as str / pathlib.Path / open file object, bare dictionary files, tensor metadata of several dtypes. Rounds 5-6: a stream holding an earlier record, positioned at the wanted record; identity (not only equality) of every object inside the metadata passed by the caller after save; reserved names refused whatever the value.')
 RULE = RULE + " " + RULE_EXT
 ASSUMPTIONS = ["metadata values are of kinds the installed torch's safe loader accepts (python scalars, str, None, list, tuple, dict, tensors)", "CPU only"]
 
@@ -64,6 +64,20 @@ def meta_eq(a, b):
     if isinstance(a, (list, tuple)):
         return len(a) == len(b) and all(meta_eq(x, y) for x, y in zip(a, b))
     return a == b
+
+
+def identity_map(x, path="md"):
+    """(path, id) of every container and tensor reachable in a metadata object: saving must leave the caller's objects in place, not only equal"""
+    out = []
+    if isinstance(x, (dict, list, tuple, torch.Tensor)):
+        out.append((path, id(x)))
+    if isinstance(x, dict):
+        for k in x:
+            out += identity_map(x[k], f"{path}[{k!r}]")
+    elif isinstance(x, (list, tuple)):
+        for i, v in enumerate(x):
+            out += identity_map(v, f"{path}[{i}]")
+    return out
 
 
 @st.composite
@@ -236,7 +250,10 @@ def check(case):
                     state.save(path(fj), md)
                     saves_seen.add((mi, op["md"]))
                 before_p, before_u, before_md = params_of(state), udict_of(state), copy.deepcopy(md)
+                before_ids = identity_map(md)
                 with_loc(fj, "wb", op.get("loc", "str"), lambda loc: state.save(loc, md))
+                require(identity_map(md) == before_ids, "save:replaces-metadata-objects",
+                        "saving replaced objects inside the caller's metadata (equal values, other objects): later in-place updates by the caller no longer reach what is saved")
                 labels.add("loc=" + op.get("loc", "str"))
                 if (mi, op["md"]) in saves_seen:
                     labels.add("second_save_same_metadata")
@@ -290,9 +307,10 @@ def check(case):
                     continue
                 if key == "unitary_dict" and not has_ud:
                     continue
-                bad = {key: 1, "other": 2}
-                expect_raises(ValueError, lambda: state.save(path(fj) + ".bad", bad), "save:reserved-key-accepted", f"saving metadata with reserved key {key!r}")
-                require(bad == {key: 1, "other": 2}, "save:mutates-metadata", "a refused save modified the metadata object")
+                val = [1, None, 0, False, "", {}, 1337][(mi + fj + len(key) + len(case["ops"])) % 7]        # a reserved NAME is refused whatever the value
+                bad = {key: val, "other": 2}
+                expect_raises(ValueError, lambda: state.save(path(fj) + ".bad", bad), "save:reserved-key-accepted", f"saving metadata with reserved key {key!r} (value {val!r})")
+                require(bad == {key: val, "other": 2}, "save:mutates-metadata", "a refused save modified the metadata object")
             elif kind == "model_saver":
                 if not isinstance(md, dict):
                     continue
